@@ -261,7 +261,7 @@ void mon_c01(CaseCtx &c, Rng &rng){
         if (s.kind == Step::surplus_loc && s.crit != refine_stable) only_stable = false;
         if (s.kind == Step::begin_c) constructed = true;
         if (!check_shadow(h, c, "shadow", s.name())) return;
-        if (h.g.getNumPoints() > 4 * go.max_points) break;
+        if (h.g.getNumPoints() > (c.thorough ? 2 : 4) * go.max_points) break; // thorough: 4141-point 4-d Global grids cost 40 s per supplying step under ASan (5.5 min per case: watchdog)
         if (h.g.isWavelet() && h.g.getNumPoints() > 1000) break; // the un-pivoted ILU is O(n^2 nnz_row): minutes per factorization under ASan beyond this
         bool supplies = (s.kind == Step::load || s.kind == Step::reload || s.kind == Step::cand_load || s.kind == Step::finish_c);
         if (!supplies || h.g.getNumLoaded() == 0) continue;
